@@ -200,14 +200,16 @@ func (r *astarRunner) Step(t []string) string {
 			}
 			return fmtNum(d)
 		}
-		p := g.find(a[0], a[1])
-		if len(p) == 0 {
-			return "none"
-		}
-		if t[0] == "cost" {
-			return fmtNum(g.pathCost(p))
-		}
-		return fmtNum(g.pathCost(p)) + " " + proto.FmtInts(p)
+		return guardedSmall(func() string {
+			p := g.find(a[0], a[1])
+			if len(p) == 0 {
+				return "none"
+			}
+			if t[0] == "cost" {
+				return fmtNum(g.pathCost(p))
+			}
+			return fmtNum(g.pathCost(p)) + " " + proto.FmtInts(p)
+		})
 	}
 	return "bad-op"
 }
@@ -275,18 +277,16 @@ func distTo(n int, edges [][3]int, goal int) []int {
 func astarGen(rng *proto.RNG, tier string, shard, nshards int, w *bufio.Writer) {
 	e := &caseEmitter{shard: shard, nshards: nshards, w: w}
 	thorough := tier == "thorough"
-	// (ii) exhaustive: every obstacle layout of the 3x3 grid (and of 3x4, 4x3 in the thorough tier; a
-	// seeded sample of them in the quick tier) with every start/goal pair
-	for mask := 0; mask < 1<<9; mask++ {
-		if e.mine() {
-			e.emit(gridCase(3, 3, mask))
-		} else {
-			e.skip()
-		}
+	// (ii) exhaustive: every obstacle layout of the 3x3, 3x4 and 4x3 grids with every start/goal pair;
+	// thorough: also 2x5, 5x2 completely and a deterministic 1/16 sample of the 4x4 layouts
+	shapes := [][2]int{{3, 3}, {3, 4}, {4, 3}}
+	if thorough {
+		shapes = append(shapes, [2]int{2, 5}, [2]int{5, 2}, [2]int{4, 4})
 	}
-	for _, wh := range [][2]int{{3, 4}, {4, 3}} {
-		for mask := 0; mask < 1<<12; mask++ {
-			if !thorough && (mask*2654435761+wh[0])%8 != 0 { // deterministic 1/8 sample in the quick tier
+	for _, wh := range shapes {
+		n := wh[0] * wh[1]
+		for mask := 0; mask < 1<<uint(n); mask++ {
+			if n == 16 && (mask*2654435761)%16 != 0 {
 				continue
 			}
 			if e.mine() {
@@ -297,7 +297,7 @@ func astarGen(rng *proto.RNG, tier string, shard, nshards int, w *bufio.Writer) 
 		}
 	}
 	// other grid shapes, random layouts, random pairs
-	nGrid := 60
+	nGrid := 150
 	if thorough {
 		nGrid = 600
 	}
@@ -322,9 +322,9 @@ func astarGen(rng *proto.RNG, tier string, shard, nshards int, w *bufio.Writer) 
 		e.emit(lines)
 	}
 	// (iii) random weighted graphs
-	nRand := 160
+	nRand := 400
 	if thorough {
-		nRand = 1500
+		nRand = 3000
 	}
 	for i := 0; i < nRand; i++ {
 		var n int
